@@ -1,4 +1,5 @@
 import Arp.Props.C16
 import Arp.Props.C16Exp
 import Arp.Props.C16Log
+import Arp.Props.FuelWide
 /-! # C16 — every theorem of the property (special operands, `exp` accuracy incl. the overflow / underflow clause, `log` accuracy) -/
